@@ -18,11 +18,13 @@ import (
 	"fmt"
 	"sort"
 	"strconv"
+	"strings"
 	"sync"
 	"sync/atomic"
 	"time"
 
 	"github.com/alicebob/miniredis/v2"
+	"github.com/alicebob/miniredis/v2/server"
 	"github.com/zeromicro/go-zero/core/collection"
 	"github.com/zeromicro/go-zero/core/logx"
 	"github.com/zeromicro/go-zero/core/stores/redis"
@@ -133,10 +135,58 @@ func (v *verifCacheCleaner) tick() int {
 	return n
 }
 
+// verifCacheInjector is the harness's fault injector: a miniredis pre-hook (the mechanism behind
+// miniredis.SetError, which therefore is not used). While down it answers every data command with an error
+// and leaves the data alone. Armed with n it lets n-1 data commands through and goes down at the n-th:
+// an outage that begins at a command boundary INSIDE an operation. Connection-level commands (HELLO, PING,
+// CLUSTER ...) are always served, so that a cluster-type client keeps its view of the topology.
+type verifCacheInjector struct {
+	mu    sync.Mutex
+	down  bool
+	arm   int   // > 0: go down at the arm-th data command from now
+	seen  int   // data commands seen since armed
+	trig  int   // > 0: the outage began at this command of the armed operation
+	after int32 // queries the harness entered after the outage had begun (reported by the drivers)
+}
+
+var verifCacheConnCmds = map[string]bool{"HELLO": true, "PING": true, "CLUSTER": true, "CLIENT": true, "COMMAND": true,
+	"READONLY": true, "READWRITE": true, "AUTH": true, "SELECT": true, "INFO": true, "QUIT": true, "ECHO": true}
+
+func (j *verifCacheInjector) hook(c *server.Peer, cmd string, args ...string) bool {
+	if verifCacheConnCmds[strings.ToUpper(cmd)] {
+		return false
+	}
+	j.mu.Lock()
+	if !j.down && j.arm > 0 {
+		j.seen++
+		if j.seen >= j.arm {
+			j.down, j.trig, j.arm = true, j.seen, 0
+		}
+	}
+	down := j.down
+	j.mu.Unlock()
+	if down {
+		c.WriteError("verif: store down")
+	}
+	return down
+}
+
+func (j *verifCacheInjector) set(down bool) {
+	j.mu.Lock()
+	j.down, j.arm, j.seen, j.trig = down, 0, 0, 0
+	j.mu.Unlock()
+}
+
 // VerifCacheWorld is one store + client + cleaner.
 type VerifCacheWorld struct {
 	M       *miniredis.Miniredis
-	R       *redis.Redis
+	R       *redis.Redis  // the client the histories use (node type, or cluster type on the same single-node store)
+	RNode   *redis.Redis
+	RClus   *redis.Redis
+	Cluster bool
+	IdBase  int64 // the row of primary key number p has id IdBase + p (ids beyond 2^53 exist: snowflake ids)
+	inj     *verifCacheInjector
+	noClus  bool
 	Emit    func(map[string]any)
 	Np, Ni  int
 	Down    bool
@@ -166,7 +216,9 @@ func VerifCacheNewWorld(emit func(map[string]any)) *VerifCacheWorld {
 			m.Close()
 			continue
 		}
-		return &VerifCacheWorld{M: m, R: r, Emit: emit}
+		inj := &verifCacheInjector{}
+		m.Server().SetPreHook(inj.hook)
+		return &VerifCacheWorld{M: m, R: r, RNode: r, Emit: emit, inj: inj}
 	}
 	panic("verif: cannot start a miniredis store")
 }
@@ -176,15 +228,78 @@ func (w *VerifCacheWorld) Close() {
 		old.onRun, old.before = nil, nil
 	}
 	if !w.Dead {
-		w.M.SetError("")
+		w.inj.set(false)
 		w.M.Close()
 	}
 }
 
+// UseCluster makes the histories that follow use a go-redis cluster client (redis.Type = cluster: cacheNode
+// deletes key by key and hands every failed key to the cleaner on its own) on the same single-node store.
+// To be called before Begin.
+func (w *VerifCacheWorld) UseCluster(on bool) {
+	if on && w.RClus == nil && !w.noClus {
+		w.inj.set(false)
+		r := redis.New(w.M.Addr(), redis.Cluster())
+		ok := false
+		for i := 0; i < 5 && !ok; i++ { // a recycled port may map to a cached client of a closed store
+			ok = r.Ping()
+		}
+		if ok {
+			w.RClus = r
+		} else {
+			w.noClus = true // the histories of this world stay on the node-type client
+		}
+	}
+	w.Cluster = on && w.RClus != nil
+	if w.Cluster {
+		w.R = w.RClus
+	} else {
+		w.R = w.RNode
+	}
+}
+
+// ArmCut makes the store refuse the n-th and every later data command it receives from now on (n >= 1).
+func (w *VerifCacheWorld) ArmCut(n int) {
+	if w.Down || w.Dead || n < 1 {
+		return
+	}
+	w.inj.mu.Lock()
+	w.inj.arm, w.inj.seen, w.inj.trig = n, 0, 0
+	w.inj.mu.Unlock()
+	atomic.StoreInt32(&w.inj.after, 0)
+}
+
+// CutBegun: the armed outage has begun (for query functions: was I entered after it began?)
+func (w *VerifCacheWorld) CutBegun() bool {
+	w.inj.mu.Lock()
+	defer w.inj.mu.Unlock()
+	return w.inj.trig > 0
+}
+
+// NoteQuery is called by the harness's query functions on entry.
+func (w *VerifCacheWorld) NoteQuery() {
+	if w.CutBegun() {
+		atomic.AddInt32(&w.inj.after, 1)
+	}
+}
+
+// EndCut disarms the injector after the operation: the command at which the outage began (0: it did not;
+// the store is then up as before) and the queries entered after that moment.
+func (w *VerifCacheWorld) EndCut() (cut, after int) {
+	w.inj.mu.Lock()
+	cut = w.inj.trig
+	w.inj.arm, w.inj.seen, w.inj.trig = 0, 0, 0
+	w.inj.mu.Unlock()
+	if cut > 0 {
+		w.Down = true
+	}
+	return cut, int(atomic.LoadInt32(&w.inj.after))
+}
+
 // Begin starts a new trace: empty store, fresh key names, fresh cleaner wheel.
 func (w *VerifCacheWorld) Begin(np, ni, expDs, nfDs int, kf bool) {
+	w.inj.set(false)
 	if w.Down {
-		w.M.SetError("")
 		w.Down = false
 		verifCacheClock.Add(int64(30 * time.Second))
 	}
@@ -196,7 +311,7 @@ func (w *VerifCacheWorld) Begin(np, ni, expDs, nfDs int, kf bool) {
 		w.ids[w.Key(k)] = k
 	}
 	w.cl = verifCacheInstallCleaner(w.cleanerRan, w.flush)
-	ev := map[string]any{"e": "reset", "np": np, "ni": ni, "exp": expDs, "nf": nfDs}
+	ev := map[string]any{"e": "reset", "np": np, "ni": ni, "exp": expDs, "nf": nfDs, "cluster": w.Cluster}
 	if kf { // the runner validates these histories one by one
 		ev["kf"] = 1
 	}
@@ -239,13 +354,13 @@ func (w *VerifCacheWorld) Snapshot() [][]int {
 				v = -1
 			case ok && k < w.Np:
 				var row VerifCacheRow
-				if json.Unmarshal([]byte(val), &row) == nil && row.Ver > 0 && row.Id == k {
+				if json.Unmarshal([]byte(val), &row) == nil && row.Ver > 0 && int64(row.Id) == w.IdBase+int64(k) {
 					v = row.Ver
 				}
 			case ok:
-				var pid int
-				if json.Unmarshal([]byte(val), &pid) == nil && pid >= 0 && pid < w.Np {
-					v = pid
+				var pid int64
+				if json.Unmarshal([]byte(val), &pid) == nil && pid >= w.IdBase && pid-w.IdBase < int64(w.Np) {
+					v = int(pid - w.IdBase)
 				}
 			}
 		}
@@ -306,10 +421,8 @@ func (w *VerifCacheWorld) Flip(down bool) {
 	if down == w.Down || w.Dead {
 		return
 	}
-	if down {
-		w.M.SetError("verif: store down")
-	} else {
-		w.M.SetError("")
+	w.inj.set(down)
+	if !down {
 		// forget what the redis breaker counted during the outage
 		verifCacheClock.Add(int64(30 * time.Second))
 	}
@@ -321,7 +434,7 @@ func (w *VerifCacheWorld) Kill() {
 	if w.Dead {
 		return
 	}
-	w.M.SetError("")
+	w.inj.set(false)
 	w.M.Close()
 	w.Dead, w.Down = true, true
 	w.Ev(map[string]any{"e": "fault", "down": true})
